@@ -145,6 +145,8 @@ def main():
                     bad.append(d)
             row = {"id": eid, "kind": kind, "what": desc, "c_compiles": cc.returncode == 0, "translator_failed": failed,
                    "build_ok": b.returncode == 0, "broken_declarations": bad}
+            if b.returncode != 0:   # is it the refinement itself (Lemmas/IntFmtC) or only something else Props/C14Gen imports?
+                row["refinement_ok"] = sh(["lake", "build", "ScpiVerif.Lemmas.IntFmtC"], cwd=os.path.join(VERIF, "lean"), env=env).returncode == 0
             if full:
                 c = sh([sys.executable, os.path.join(VERIF, "tools", "check.py"), "C14", "--tier", "quick"], env=env, cwd=VERIF)
                 lines = [l for l in c.stdout.splitlines() if l.startswith(("VIOLATION", "ok ", "FAIL ", "KNOWN"))]
